@@ -238,6 +238,14 @@ def array_pass(ctx, np):
                         Xc[idx] = [newv] * len(kx) if container == 'list' else newv
                     except Exception as e:
                         ctx.count('setitem-raises:' + type(e).__name__)
+                        # does plain numpy accept the same assignment on each coefficient array?
+                        try:
+                            for b in before:
+                                bb = b.copy(); bb[idx] = newv
+                            ctx.violation('setitem-raises', {'sig': sig, 'shape': list(shape), 'container': container, 'index': repr(idx)},
+                                          'assignment to the addressed entries', repr(e)[:200], key=f'array:setitem-raises:{container}')
+                        except Exception:
+                            pass
                         continue
                     case = {'sig': sig, 'shape': list(shape), 'container': container, 'index': repr(idx)}
                     ctx.case(('setitem', case), tag='setitem')
